@@ -12,6 +12,7 @@ scores are IEEE bit patterns `b<uint64>`; a skipped (ValueError) candidate is `s
 
 * `combine <k> (<n> <rat>×n)×k`                       → `ok <rows> : r00 r01 ; r10 r11 …` | `IndexError`
 * `grid <targetLen> <nd2> <k> <entry>×k`              → `ok <entry>…` | `ValueError:<tag>`
+* `data <fitted> <m_features> <columns of X>`         → `ok` | `ValueError:badData`
 * `objective <known> <name>`                          → `ok <NAME>` | `ValueError:<tag>`
 * `plan <known> <objective> <adm,adm,…> <dflt block> <p> <block>×p`
                                                       → `ok <OBJ> <name,name…> <ncand> | <entry>… | <entry>… …`
@@ -48,7 +49,7 @@ def showObjective : Objective → String
 def showErrTag : SearchErr → String
   | .badObjective => "badObjective" | .gcvKnownScale => "gcvKnownScale" | .ubreUnknownScale => "ubreUnknownScale"
   | .unknownParam => "unknownParam" | .gridTooShort => "gridTooShort" | .gridColumns => "gridColumns"
-  | .noBest => "noBest"
+  | .badData => "badData"
 
 def showErr (e : SearchErr) : String := e.pyClass ++ ":" ++ showErrTag e
 
@@ -149,6 +150,13 @@ def handle : List String → Option String
       else match normaliseGrid t spec with
         | .error e => some (showErr e)
         | .ok g => some ("ok " ++ joinWith " " (g.map showEntry))
+  | ["data", fitted, m, n] => do
+      let fitted ← parseBool? fitted
+      let m ← m.toNat?
+      let n ← n.toNat?
+      match dataCheck fitted m n with
+      | .error e => some (showErr e)
+      | .ok () => some "ok"
   | ["objective", known, name] => do
       let known ← parseBool? known
       match resolveObjective known (parseObjective name) with
